@@ -521,7 +521,7 @@ def eff3(units, R):
                         break
                 R.ob('EFF3', fn, c, 'reallocate call %s guarded by non-NULL test' % want, ok, why,
                      key='realloc-guard:' + want)
-    R.floor('EFF3', 'reallocate call sites', ncalls, 2)
+    R.floor('EFF3', 'reallocate call sites', ncalls, 1)
 
     # installation: simulate every path of each function that assigns members of the global table
     writers = []
